@@ -1570,6 +1570,7 @@ def checkpoint(eng, key):
     cps = c.extra.get('checkpoints', {}) if c is not None else {}
     if key not in cps:
         return
+    eng.stats.setdefault('checkpoints_hit', set()).add(key)
     from .engine import Frame
     fr = getattr(eng, 'cur_frame', None)
     for name, e in cps[key].items():
